@@ -1,118 +1,18 @@
 import Verif.Model.StdioOut
 import Verif.Lemmas.StdioIn
+import Verif.Lemmas.StdioCodec
+import Verif.Lemmas.Json
+import Verif.Lemmas.Rpc
 
-/-! Helper lemmas for C06: the JSON encoder never emits a raw LF/CR, UTF-8 encoding introduces no
-LF/CR byte, the byte stream splits back into the lines. -/
+/-! Helper lemmas for C06: UTF-8 encoding introduces no LF/CR byte, the byte stream splits back into
+the lines, lines decode (UTF-8 then `Json.dec`) to the values, interleavings of two writers.  The
+JSON facts (`enc_noBreak`, `dec_enc`) are C17's (`Lemmas/Json.lean`), `wf_emit` is C02's. -/
 set_option linter.unusedVariables false
 set_option linter.unusedSimpArgs false
 namespace Verif.Lemmas.StdioOut
-open Verif.Model.StdioIn Verif.Model.StdioOut Verif.Lemmas.StdioIn
-
-theorem noBreak_nil : NoBreak [] := by simp [NoBreak]
-
-theorem noBreak_append {a b : List Nat} (ha : NoBreak a) (hb : NoBreak b) : NoBreak (a ++ b) := by
-  simp only [NoBreak, List.mem_append] at *; grind
-
-theorem noBreak_cons {c : Nat} {a : List Nat} (hc : c ≠ LF ∧ c ≠ CR) (ha : NoBreak a) : NoBreak (c :: a) := by
-  simp only [NoBreak, List.mem_cons] at *; grind
-
-theorem hex_ne (n : Nat) (h : n < 16) : hex n ≠ LF ∧ hex n ≠ CR := by
-  have : ∀ n, n < 16 → hex n ≠ LF ∧ hex n ≠ CR := by decide
-  exact this n h
-
-theorem u4_noBreak (n : Nat) : NoBreak (u4 n) := by
-  have h1 := hex_ne (n / 4096 % 16) (by omega)
-  have h2 := hex_ne (n / 256 % 16) (by omega)
-  have h3 := hex_ne (n / 16 % 16) (by omega)
-  have h4 := hex_ne (n % 16) (by omega)
-  unfold u4
-  refine noBreak_cons (by decide) (noBreak_cons (by decide) (noBreak_cons h1 (noBreak_cons h2
-    (noBreak_cons h3 (noBreak_cons h4 noBreak_nil)))))
-
-theorem escChar_noBreak (a : Bool) (c : Nat) : NoBreak (escChar a c) := by
-  unfold escChar
-  split; · simp [NoBreak, LF, CR]
-  split; · simp [NoBreak, LF, CR]
-  split; · simp [NoBreak, LF, CR]
-  split; · simp [NoBreak, LF, CR]
-  split; · simp [NoBreak, LF, CR]
-  split; · simp [NoBreak, LF, CR]
-  split; · simp [NoBreak, LF, CR]
-  split; · exact u4_noBreak c
-  split
-  · split
-    · exact u4_noBreak c
-    · exact noBreak_append (u4_noBreak _) (u4_noBreak _)
-  · rename_i h10 h13 _ _ _ _ _
-    simp only [NoBreak, List.mem_singleton, LF, CR]
-    omega
-
-theorem flatMap_noBreak (a : Bool) (s : List Nat) : NoBreak (s.flatMap (escChar a)) := by
-  induction s with
-  | nil => simp [NoBreak]
-  | cons c cs ih => simp only [List.flatMap_cons]; exact noBreak_append (escChar_noBreak a c) ih
-
-theorem encStr_noBreak (a : Bool) (s : List Nat) : NoBreak (encStr a s) := by
-  unfold encStr
-  exact noBreak_cons (by decide) (noBreak_append (flatMap_noBreak a s) (noBreak_cons (by decide) noBreak_nil))
-
-theorem natDigits_range (n : Nat) : ∀ c ∈ natDigits n, 48 ≤ c ∧ c ≤ 57 := by
-  fun_induction natDigits n with
-  | case1 n h => intro c hc; simp at hc; omega
-  | case2 n h ih =>
-    intro c hc
-    simp only [List.mem_append, List.mem_singleton] at hc
-    rcases hc with hc | hc
-    · exact ih c hc
-    · omega
-
-theorem natDigits_noBreak (n : Nat) : NoBreak (natDigits n) := by
-  constructor <;> intro h <;> have := natDigits_range n _ h <;> simp [LF, CR] at this
-
-theorem intText_noBreak (i : Int) : NoBreak (intText i) := by
-  unfold intText
-  split
-  · exact noBreak_cons (by decide) (natDigits_noBreak _)
-  · exact natDigits_noBreak _
-
-mutual
-theorem enc_noBreak (sty : Style) (h1 : NoBreak sty.itemSep) (h2 : NoBreak sty.kvSep) :
-    ∀ v : Json, NoBreak (enc sty v)
-  | .null => by simp [enc, NoBreak, LF, CR]
-  | .bool true => by simp [enc, NoBreak, LF, CR]
-  | .bool false => by simp [enc, NoBreak, LF, CR]
-  | .int i => by simp only [enc]; exact intText_noBreak i
-  | .str s => by simp only [enc]; exact encStr_noBreak _ s
-  | .arr xs => by
-      simp only [enc]
-      exact noBreak_cons (by decide) (noBreak_append (encList_noBreak sty h1 h2 xs) (noBreak_cons (by decide) noBreak_nil))
-  | .obj kvs => by
-      simp only [enc]
-      exact noBreak_cons (by decide) (noBreak_append (encKvs_noBreak sty h1 h2 kvs) (noBreak_cons (by decide) noBreak_nil))
-theorem encList_noBreak (sty : Style) (h1 : NoBreak sty.itemSep) (h2 : NoBreak sty.kvSep) :
-    ∀ xs : List Json, NoBreak (encList sty xs)
-  | [] => by simp [encList, NoBreak]
-  | [x] => by simp only [encList]; exact enc_noBreak sty h1 h2 x
-  | x :: y :: xs => by
-      simp only [encList]
-      exact noBreak_append (enc_noBreak sty h1 h2 x) (noBreak_append h1 (encList_noBreak sty h1 h2 (y :: xs)))
-theorem encKvs_noBreak (sty : Style) (h1 : NoBreak sty.itemSep) (h2 : NoBreak sty.kvSep) :
-    ∀ kvs : List (List Nat × Json), NoBreak (encKvs sty kvs)
-  | [] => by simp [encKvs, NoBreak]
-  | [(k, v)] => by
-      simp only [encKvs]
-      exact noBreak_append (encStr_noBreak _ k) (noBreak_append h2 (enc_noBreak sty h1 h2 v))
-  | (k, v) :: kv :: kvs => by
-      simp only [encKvs]
-      exact noBreak_append (encStr_noBreak _ k) (noBreak_append h2
-        (noBreak_append (enc_noBreak sty h1 h2 v) (noBreak_append h1 (encKvs_noBreak sty h1 h2 (kv :: kvs)))))
-end
-
-theorem compact_seps : NoBreak Style.compact.itemSep ∧ NoBreak Style.compact.kvSep := by
-  simp [Style.compact, NoBreak, LF, CR]
-
-theorem std_seps : NoBreak Style.std.itemSep ∧ NoBreak Style.std.kvSep := by
-  simp [Style.std, NoBreak, LF, CR]
+open Verif.Model.StdioIn Verif.Model.StdioOut Verif.Lemmas.StdioIn Verif.Model.Json
+open Verif.Model.Carrier (codes chars)
+open Verif.Lemmas.StdioCodec (lf_notin_codes validText_codes chars_codes)
 
 /-! ### UTF-8 encoding introduces no LF / CR byte -/
 
@@ -141,20 +41,27 @@ theorem encode_append (a b : List Nat) : encode (a ++ b) = encode a ++ encode b 
 theorem encode_lf : encode [LF] = [LF] := by decide
 
 /-- the byte stream of LF-terminated lines splits back into the (encoded) lines -/
-theorem split_lines (lines : List (List Nat)) (h : ∀ l ∈ lines, LF ∉ l) :
-    split LF (lines.map (fun l => encode (l ++ [LF]))).flatten = (lines.map encode, []) := by
+theorem split_lines (lines : List (List Char)) (h : ∀ l ∈ lines, '\n' ∉ l) :
+    split LF (lines.map (fun l => encode (codes l ++ [LF]))).flatten = (lines.map (fun l => encode (codes l)), []) := by
   induction lines with
   | nil => simp [split]
   | cons l ls ih =>
-    have hl := encode_no_lf l (h l (by simp))
+    have hl := encode_no_lf (codes l) (lf_notin_codes l (h l (by simp)))
     have ih' := ih (fun x hx => h x (by simp [hx]))
     simp only [List.map_cons, List.flatten_cons]
-    have e : encode (l ++ [LF]) = encode l ++ [LF] := by rw [encode_append, encode_lf]
+    have e : encode (codes l ++ [LF]) = encode (codes l) ++ [LF] := by rw [encode_append, encode_lf]
     rw [e, List.append_assoc, List.singleton_append, split_line LF _ _ hl, ih']
+
+/-- UTF-8 decoding then `chars` gives the text back -/
+theorem decBytes_codes (l : List Char) : decBytes [] (encode (codes l)) = .ok (codes l, []) :=
+  dec_encode (codes l) (validText_codes l)
+
+theorem decLine_codes (l : List Char) : decLine (encode (codes l)) = dec l := by
+  simp [decLine, decBytes_codes, chars_codes]
 
 /-- the accepted lines, in order -/
 theorem sends_eq (sty : Style) (items : List Outbound) :
-    sends sty items = (items.filterMap (ser sty)).map (fun l => encode (l ++ [LF])) := by
+    sends sty items = (items.filterMap (ser sty)).map (fun l => encode (codes l ++ [LF])) := by
   induction items with
   | nil => rfl
   | cons it rest ih =>
@@ -274,7 +181,7 @@ theorem interleaving_map_inv {α β : Type} (f : α → β) (m : List β) :
         exact ⟨b0 :: ls, .right b0 hl, by simp [hm, h0]⟩
 
 theorem rejectionSends_eq (sty : Style) (rejs : List Json) :
-    rejectionSends sty rejs = (rejs.map (enc sty)).map (fun l => encode (l ++ [LF])) := by
+    rejectionSends sty rejs = (rejs.map (enc sty)).map (fun l => encode (codes l ++ [LF])) := by
   unfold rejectionSends
   rw [sends_eq]
   congr 1
